@@ -117,6 +117,25 @@ let handle (line : string) : string =
       let size = bitpacked_base_size (z_of_int n) max_vocab quant in
       let vals = List.map (fun r -> match String.split_on_char ':' r with [p; _] -> hex_of_z (z_of_hex p) | _ -> "?") recs in
       String.concat " " ((hex_of_z size ^ " guard-ok") :: vals)
+  | "TM" :: "D" :: _bb :: mv :: qb :: recs ->
+      (* BitPackedMiddle<DontBhiksha>: the extracted model (coq/C20/MiddleModel.v) over the generated bit-packing routines and the
+         modelled BoundedSortedUniformFind -- Insert each record, FinishedLoading, then Find every word in the range [0, n) *)
+      let max_vocab = z_of_hex mv and quant = z_of_hex qb in
+      let parsed = List.map (fun r -> match String.split_on_char ':' r with
+          | [w; p; c] -> (z_of_hex w, z_of_hex p, z_of_hex c) | _ -> failwith "rec") recs in
+      let total = List.fold_left (fun acc (_, _, c) -> Z.add acc c) Z0 parsed in
+      let m = { m_base = Z0; m_wb = bits_needed max_vocab; m_qb = quant; m_nb = bits_needed total; m_max_vocab = max_vocab } in
+      let _, rs = List.fold_left (fun (start, acc) (w, p, c) -> (Z.add start c, ((w, p), start) :: acc)) (Z0, []) parsed in
+      let rs = List.rev rs in
+      let n = z_of_int (List.length rs) in
+      let mem = mid_finish m (mid_inserts m Z0 Z0 rs) n total in
+      let fuel = nat_of_int (List.length rs + 3) in
+      let outs = List.map (fun ((w, _), _) ->
+          match mid_find m fuel mem w Z0 n with
+          | None -> "OUT-OF-FUEL"
+          | Some None -> "lost"
+          | Some (Some (((p, pay), cb), ce)) -> hex_of_z pay ^ ":" ^ hex_of_z p ^ ":" ^ hex_of_z cb ^ ":" ^ hex_of_z ce) rs in
+      String.concat " " ("guard-ok" :: outs)
   | "TM" :: _kind :: _bb :: _mv :: _qb :: recs ->
       (* an array of (word, payload, next pointer) records is an array: record i reads back its payload, its index and the
          child range [sum of children before i, that + children i) -- whatever the pointer compression (specification level;
